@@ -5,6 +5,7 @@ let () =
   | [ _; "segments"; path ] -> Drv_segments.run path
   | [ _; "checksum"; path ] -> Drv_checksum.run path
   | [ _; "path"; path ] -> Drv_path.run path
+  | [ _; "udp"; path ] -> Drv_udp.run path
   | _ ->
       prerr_endline "usage: driver <component> <ops>";
       exit 2
